@@ -174,6 +174,18 @@ class C15(Prop):
                     evs = self.number(seq)
                     out.append(mk_case(chain, evs, "local", "nested"))
                     out.append(mk_case(chain, evs, "threads", "nested"))
+        # a NEIGHBOUR joins the source subject (event `join`) at some point of the history: the subject's own bookkeeping
+        # (chamber -> live list, pruning) must not lose the finalize subscription — in particular one whose downstream has
+        # finished early (take / take_while) without being unsubscribed (seed C15-7)
+        JOIN = ["join"]
+        for op in [["take", "1"], ["take", "2"], ["takewhile", "lt2"], ["filter", "true"], ["last"]]:
+            for chain in ([["fin", "0"], op], [op, ["fin", "0"]], [["fin", "0"], op, ["fin", "1"]]):
+                for n in range(1, (4 if tier == "quick" else 5) + 1):
+                    for seq in itertools.product(ALPHABET, repeat=n):
+                        base = self.number(seq)
+                        for pos in range(len(base) + 1):
+                            evs = base[:pos] + [JOIN] + base[pos:]
+                            out.append(mk_case(chain, evs, ("local", "threads")[(pos + n) % 2], "join"))
         # random chains
         nrand = 5000 if tier == "quick" else 50000
         for _ in range(nrand):
